@@ -12,7 +12,34 @@ G = ['gx', 'gy', 'gz']
 A = ['ax', 'ay', 'az']
 M = ['mx', 'my', 'mz']
 H3 = ['h00', 'h01', 'h02', 'h10', 'h11', 'h12', 'h20', 'h21', 'h22']
+A2 = ['ux', 'uy', 'uz']
+M2 = ['nx', 'ny', 'nz']
+G2 = ['hx', 'hy', 'hz']
+LV = ['l0', 'l1', 'l2', 'l3'] + [f'v{i}{j}' for i in range(4) for j in range(4)]     # eigenvalues, eigenvector matrix (rows)
+PM = [f'p{i}{j}' for i in range(4) for j in range(4)]                                 # EKF state covariance P
+SI = [f's{i}{j}' for i in range(6) for j in range(6)]                                 # stand-in for inv(S), S the 6x6 innovation covariance
 MREF3 = [0.6, 0.0, 0.8]          # a rational unit reference field for the filters whose default comes from the WMM
+
+
+def _eig_post(call):
+    def fn(P, v):
+        from pysym import symnp
+        symnp.EIG_STUB = (v.vec(*LV[:4]), v.mat([LV[4:8], LV[8:12], LV[12:16], LV[16:20]]))
+        try:
+            return call(P, v)
+        finally:
+            symnp.EIG_STUB = None
+    return fn
+
+
+def _ekf_marg(P, v):
+    from pysym import symnp
+    symnp.linalg.inv = lambda a: v.mat([SI[6 * i:6 * i + 6] for i in range(6)])       # instance attribute: shadows the class method
+    try:
+        f = P.filters.EKF(magnetic_ref=list(MREF3), P=v.mat([PM[0:4], PM[4:8], PM[8:12], PM[12:16]]))
+        return f.update(v.vec(*Q), v.vec(*G), v.vec(*A), v.vec(*M))
+    finally:
+        del symnp.linalg.inv
 
 
 def targets():
@@ -49,6 +76,23 @@ def targets():
         mk('triad', A + M, lambda P, v: F(P).TRIAD(v1=[0.0, 0.0, 1.0], v2=list(MREF3)).estimate(v.vec(*A), v.vec(*M))),
         mk('flae_W', H3, lambda P, v: (lambda f: f._P1Hx(v.vec(*H3[0:3])) + f._P2Hy(v.vec(*H3[3:6])) + f._P3Hz(v.vec(*H3[6:9])))(F(P).FLAE()),
            "FLAE's W matrix (the argument of eig) from the rows of H"),
+        # two-sample batch through the constructor: W (angles) and the Q property (quaternions from the blended angles)
+        mk('complementary_Q', G + A + M + G2 + A2 + M2, lambda P, v: F(P).Complementary(gyr=v.mat([G, G2]), acc=v.mat([A, A2]), mag=v.mat([M, M2])).Q,
+           'Complementary(gyr, acc, mag).Q for N = 2 symbolic samples'),
+        # the code AFTER the LAPACK call: the eigen-solver is replaced (symnp.EIG_STUB) by symbolic eigenvalues l0..l3 and an
+        # eigenvector matrix v_ij of the same inputs, so argmax / column selection / normalisation of the real code are regenerated
+        mk('davenport_post', A + M + LV, _eig_post(lambda P, v: F(P).Davenport().estimate(v.vec(*A), v.vec(*M))),
+           'Davenport().estimate after eigh (EIG_STUB)'),
+        mk('flae_eig_post', A + M + LV, _eig_post(lambda P, v: F(P).FLAE(magnetic_dip=60.0).estimate(v.vec(*A), v.vec(*M), method='eig')),
+           "FLAE().estimate(method='eig') after eigh (EIG_STUB)"),
+        mk('ecompass_ned', A + M, lambda P, v: P.common.orientation.ecompass(v.vec(*A), v.vec(*M), frame='NED', representation='quaternion')),
+        mk('ecompass_enu', A + M, lambda P, v: P.common.orientation.ecompass(v.vec(*A), v.vec(*M), frame='ENU', representation='quaternion')),
+        mk('acc2q', A, lambda P, v: P.common.orientation.acc2q(v.vec(*A))),
+        # EKF.update: IMU with a symbolic covariance P (3x3 inverse traced by cofactors); MARG with inv(S) of the 6x6 innovation
+        # covariance replaced by an ARBITRARY symbolic 6x6 matrix (only that call is stubbed; everything else is the real code)
+        mk('ekf_imu', Q + G + A + PM, lambda P, v: F(P).EKF(magnetic_ref=list(MREF3), P=v.mat([PM[0:4], PM[4:8], PM[8:12], PM[12:16]])).update(
+            v.vec(*Q), v.vec(*G), v.vec(*A)), 'EKF(P=P).update(q, gyr, acc)'),
+        mk('ekf_marg', Q + G + A + M + PM + SI, _ekf_marg, 'EKF(P=P).update(q, gyr, acc, mag) with np.linalg.inv(S) := symbolic 6x6'),
         mk('fkf_meas', Q + A + M, lambda P, v: F(P).FKF().measurement_quaternion_acc_mag(v.vec(*Q), v.vec(*A), v.vec(*M))[0],
            "FKF's measurement quaternion (first output)"),
     ]
@@ -127,18 +171,19 @@ def pregen(ctx):
 
 
 STAGES = [['C03_core.v'],
-          ['C03_steps.v', 'C03_partial_L.v', 'C03_full_L.v', 'C03_eq_a.v', 'C03_eq_b.v',
+          ['C03_steps.v', 'C03_partial_L.v', 'C03_full_L.v', 'C03_eq_a.v', 'C03_eq_b.v', 'C03_eq_c.v',
            ('C03_refuted_saam.v', {'finding': 'SAAM.am-quaternion/nan-or-nan-rejected@level'})],
-          ['C03_batch.v'], ['C03.v']]
+          ['C03_batch.v', 'C03_est_L.v', 'C03_triad_L.v'], ['C03.v']]
 # thorough tier only: convertibility of the let_in prints of the three largest proved steps with pysym's prints (one kernel
 # conversion of two let-DAGs each: 20 s .. 4 min), and the theorems restated about the _R definitions
-STAGES_THOROUGH = [['C03_eq_t1.v', 'C03_eq_t2.v', 'C03_eq_t3.v'], ['C03_thorough.v']]
+STAGES_THOROUGH = [['C03_eq_t1.v', 'C03_eq_t2.v', 'C03_eq_t3.v', 'C03_eq_t4.v'], ['C03_thorough.v']]
 
-LEVEL_TEXT = ("Coq theorems over the regenerated update steps: unit_after_step with EVERY normalised vector proved non-zero for Mahony "
-              "IMU/MARG, Madgwick IMU/MARG (beta*dt < 1 argument), AngularRate closed/series-1; length and unit invariant of the scan driver "
-              "for every history length; 'unit or degenerate-zero on every path' for all 14 regenerated quaternion steps/estimates incl. "
-              "AQUA updateIMU/updateMARG, Fourati, ROLEQ, FQA, SAAM, FAMC; all 19 classes x architectures x frames x parameter sets explored "
-              "by the search, step and streaming oracles")
+LEVEL_TEXT = ("Coq theorems over the regenerated code of 17 of the 19 classes: unit_after_step with every normalised vector proved non-zero "
+              "(Mahony IMU/MARG, Madgwick IMU/MARG incl. the null-gradient path, AngularRate closed/series-1); Tilt and Complementary.Q unit "
+              "for ALL inputs; TRIAD a proper rotation matrix for non-parallel observations; Davenport unit under the eigh contract; EKF.update "
+              "(any P; MARG with inv(S) abstracted) never rejects on the guard and returns v/|v|; 'unit, rejection, or zero vector' on every "
+              "path for AQUA, Fourati, ROLEQ, FQA, SAAM, FAMC, FLAE(eig), e-compass, acc2q; one row per sample and the unit invariant of the "
+              "scan driver for every history length; all 19 classes explored by the search, step and streaming oracles")
 LEVEL_NOTE = "partial: see PARTIAL"
 TECHNIQUE = "proof (Coq 8.16) over pysym-regenerated steps + hand driver model + float correspondence + numeric search oracle"
 RULE = ("every filter class x architecture x frame x parameter set on (a) random histories, N in {2,3,4,5,7}, per-sensor magnitudes "
@@ -150,15 +195,19 @@ TRUSTED = ["Coq 8.16.1 kernel; vm_compute for the float copies", "pysym tracing 
            "stdlib real-number axioms (sig_forall_dec, sig_not_dec, functional_extensionality_dep) and Classical_Prop.classic via Reals trigonometry",
            "real arithmetic stands for binary64 (measured by correspondence, not proved)",
            "LAPACK (inv, eig/eigh, cholesky, solve) and NumPy's global RNG (OLEQ): not modelled; EKF, UKF, Davenport, FLAE, OLEQ, QUEST, FKF are covered by the search oracle only"]
-PARTIAL = ("proved: one row per sample for any scan/map driver; unit_after_step incl. non-zero-ness of every normalised vector and absence "
-           "of rejections for Mahony IMU/MARG, Madgwick IMU/MARG (default gains, dt = 1/100), AngularRate closed and series order 1; for "
-           "AQUA updateIMU/updateMARG/estimate, Fourati, ROLEQ, FQA, SAAM, FAMC, AngularRate series-2 only 'unit unless the vector handed to "
-           "the final normalisation is exactly zero' (missing: non-zero-ness — false for SAAM at level poses, refuted theorem — and absence "
-           "of rejections). Theorems about Madgwick MARG, AQUA updateIMU/MARG, Fourati, FQA are stated about the let_in print of the same "
-           "traced decision tree (C03gen_L.v, printed by tools/props/C03.py with pysym's expression printer); its convertibility with "
-           "pysym's print is proved for 14 targets (quick: 11, thorough: Madgwick MARG, AQUA updateIMU, Fourati) and NOT for AQUA updateMARG "
-           "and FQA (kernel conversion > 7 min). Tilt, TRIAD, Complementary.am_estimation: regenerated and float-checked, no theorem. EKF, "
-           "UKF, FKF, QUEST, Davenport, FLAE, OLEQ: search / streaming oracles only; float finiteness over several decades: explored")
+PARTIAL = ("FULL (no totalised division used on the guard): Mahony IMU/MARG, Madgwick IMU/MARG (default gains, dt = 1/100; the null-gradient "
+           "path is a separate branch since the guard `gradient_norm > 0`), AngularRate closed / series-1, Tilt (all inputs), Complementary.Q "
+           "two-sample batch (all inputs), TRIAD rotmat (premise |w1 x w2| > 0), Davenport after eigh (premise: unit eigenvector columns), "
+           "one row per sample for any scan/map driver. PARTIAL 'unit, rejection or - only when the vector handed to the final "
+           "normalisation is exactly zero - the zero vector': AQUA updateIMU/updateMARG/estimate, Fourati, ROLEQ, FQA, SAAM, FAMC (both never "
+           "None/never reject on the guard), FLAE(eig) after eigh, e-compass NED/ENU, acc2q, AngularRate series-2, EKF.update IMU (any P) and "
+           "MARG (any P, np.linalg.inv(S) replaced by an arbitrary symbolic 6x6 matrix - the only stubbed call; on the guard EKF never rejects); "
+           "missing there: non-zero-ness (false for SAAM at level poses: refuted theorem). Intermediate divisions (FAMC's alpha, AQUA's "
+           "sqrt(2(gz+1)), FLAE/e-compass internals) are Coq's total division: a zero denominator there is NaN in binary64 and is covered only "
+           "by the search oracle. Theorems on AQUA updateMARG and FQA are about the let_in print only (convertibility with pysym's print not "
+           "checked: > 7 min); all others are restated about pysym's prints (quick: 21 targets, thorough: +4). No theorem: QUEST (Newton loop "
+           "not traceable), OLEQ (RNG), UKF (cholesky), FKF's Kalman update, FLAE symbolic/newton roots, Tilt/SAAM rotmat conversions, "
+           "AngularRate series >= 2 non-zero-ness; float finiteness over several decades: explored")
 
 
 def _impl():
@@ -191,8 +240,39 @@ def _impl():
         'triad': lambda c: F.TRIAD(v1=[0.0, 0.0, 1.0], v2=list(MREF3)).estimate(a(c), m(c)),
         'flae_W': lambda c: (lambda f: f._P1Hx(np.array([c[k] for k in H3[0:3]])) + f._P2Hy(np.array([c[k] for k in H3[3:6]]))
                              + f._P3Hz(np.array([c[k] for k in H3[6:9]])))(F.FLAE()),
+        'complementary_Q': lambda c: F.Complementary(gyr=np.array([g(c), [c[k] for k in G2]]), acc=np.array([a(c), [c[k] for k in A2]]),
+                                                     mag=np.array([m(c), [c[k] for k in M2]])).Q,
+        'davenport_post': lambda c: _with_eig(c, lambda: F.Davenport().estimate(a(c), m(c))),
+        'flae_eig_post': lambda c: _with_eig(c, lambda: F.FLAE(magnetic_dip=60.0).estimate(a(c), m(c), method='eig')),
+        'ecompass_ned': lambda c: __import__('ahrs').common.orientation.ecompass(a(c), m(c), frame='NED', representation='quaternion'),
+        'ecompass_enu': lambda c: __import__('ahrs').common.orientation.ecompass(a(c), m(c), frame='ENU', representation='quaternion'),
+        'acc2q': lambda c: __import__('ahrs').common.orientation.acc2q(a(c)),
+        'ekf_imu': lambda c: F.EKF(magnetic_ref=list(MREF3), P=np.array([c[k] for k in PM]).reshape(4, 4)).update(q(c), g(c), a(c)),
+        'ekf_marg': lambda c: _with_inv(c, lambda: F.EKF(magnetic_ref=list(MREF3), P=np.array([c[k] for k in PM]).reshape(4, 4)).update(q(c), g(c), a(c), m(c))),
         'fkf_meas': lambda c: F.FKF().measurement_quaternion_acc_mag(q(c), a(c), m(c))[0],
     }
+
+
+def _with_eig(c, call):
+    from unittest import mock
+    l = np.array([c[k] for k in LV[:4]]); V = np.array([c[k] for k in LV[4:]]).reshape(4, 4)
+    with mock.patch('numpy.linalg.eigh', return_value=(l, V)):
+        return call()
+
+
+def _with_inv(c, call):
+    from unittest import mock
+    Si = np.array([c[k] for k in SI]).reshape(6, 6)
+    with mock.patch('numpy.linalg.inv', return_value=Si):
+        return call()
+
+
+def _extra(rng):
+    """second sample, eigen-pairs (random eigenvalues, random matrix), covariance P (SPD), stand-in for inv(S)"""
+    Bm = rng.standard_normal((4, 4))
+    return {**cm.d(G2, rng.standard_normal(3)), **cm.d(A2, rng.standard_normal(3)), **cm.d(M2, rng.standard_normal(3)),
+            **cm.d(LV, np.r_[rng.standard_normal(4), rng.standard_normal(16)]), **cm.d(PM, (Bm @ Bm.T / 4 + np.eye(4) * 0.1).reshape(-1)),
+            **cm.d(SI, (rng.standard_normal((6, 6)) * 0.3).reshape(-1))}
 
 
 def correspondence(ctx):
@@ -206,18 +286,28 @@ def correspondence(ctx):
         gv, av, mv = (cm.unit(ctx.rng.standard_normal(3)) * s[k] for k in range(3))
         bv = ctx.rng.standard_normal(3) * 0.01
         hv = ctx.rng.standard_normal(9)
-        cases.append({**cm.d(Q, qv), **cm.d(B3, bv), **cm.d(G, gv), **cm.d(A, av), **cm.d(M, mv), **cm.d(H3, hv)})
+        cases.append({**cm.d(Q, qv), **cm.d(B3, bv), **cm.d(G, gv), **cm.d(A, av), **cm.d(M, mv), **cm.d(H3, hv), **_extra(ctx.rng)})
     # canonical measurements on a generic state (exact zeros exercise the sign / branch decisions)
     for av, mv in (([0, 0, 1.0], [0.4, 0, 0.9]), ([0, 0, -2.0], [0.4, 0.1, -0.9]), ([3.0, 0, 0], [0, 0.5, 0.5]), ([0, -1.0, 0], [0.3, 0.2, 0.1])):
         qv = cm.rand_unit_quat(ctx.rng)
-        cases.append({**cm.d(Q, qv), **cm.d(B3, [0, 0, 0]), **cm.d(G, [0.1, -0.2, 0.3]), **cm.d(A, av), **cm.d(M, mv), **cm.d(H3, range(9))})
-    loose = {'aqua_imu', 'aqua_marg', 'fqa', 'tilt_acc', 'tilt_am', 'tilt_am_angles', 'complementary_am', 'aqua_est_am', 'famc', 'fourati'}
-    for name, f in I.items():
+        cases.append({**cm.d(Q, qv), **cm.d(B3, [0, 0, 0]), **cm.d(G, [0.1, -0.2, 0.3]), **cm.d(A, av), **cm.d(M, mv), **cm.d(H3, range(9)), **_extra(ctx.rng)})
+    loose = {'complementary_Q', 'ekf_imu', 'ekf_marg', 'ecompass_ned', 'ecompass_enu', 'aqua_imu', 'aqua_marg', 'fqa', 'tilt_acc', 'tilt_am', 'tilt_am_angles', 'complementary_am', 'aqua_est_am', 'famc', 'fourati'}
+    def one(name):
         t = ctx.targets.get(f'C03_{name}')
         if t is None:
-            continue
+            return
         cs = [{k: c[k] for k in t.inputs} for c in cases]
-        ctx.correspond(f'C03_{name}', cs, f, tol_ulp=(1 << 22) if name in loose else 4096, abs_tol=1e-13)
+        ctx.correspond(f'C03_{name}', cs, I[name], tol_ulp=(1 << 22) if name in loose else 4096, abs_tol=1e-13)
+    names = list(I)
+    base = ctx.evaluations
+    patched = [n for n in names if n in ('davenport_post', 'flae_eig_post', 'ekf_marg')]   # these patch numpy.linalg globally
+    one(names[0])                                  # sequentially first: fills the evidence samples deterministically
+    for n in patched:                              # never concurrently with anything else
+        one(n)
+    from concurrent.futures import ThreadPoolExecutor
+    with ThreadPoolExecutor(max_workers=4) as ex:  # the rest: one coqc (vm_compute) per target, independent of each other
+        list(ex.map(one, [n for n in names[1:] if n not in patched]))
+    ctx.evaluations = base + sum(ctx.corr_stats.get(f'C03_{n}', {}).get('cases', 0) for n in names)
     # driver model: exactly one row per sample
     Ns = [2, 3, 4, 5, 7]
     pre = ['From Coq Require Import List.', 'From AhrsModel Require Import C03_driver.', 'Import ListNotations.']
@@ -306,12 +396,35 @@ def configs():
     return out
 
 
-def _observe(cls, arch, frame, ps, gyr, acc, mag):
+def _ref_kw(cls, ref, dip_deg):
+    """the class's own way of being told the magnetic reference the structured histories were generated with"""
+    if ref is None:
+        return {}
+    r = [float(x) for x in ref]
+    if cls == 'FQA':
+        return {'mag_ref': np.array(r)}
+    if cls in ('ROLEQ', 'OLEQ', 'EKF'):
+        return {'magnetic_ref': np.array(r)}
+    if cls == 'TRIAD':
+        return {'v2': np.array(r)}
+    if cls == 'QUEST':
+        return {'magnetic_dip': np.array(r)}
+    if cls == 'Fourati':
+        return {'magnetic_dip': np.array([0.0] + r)}
+    if cls in ('Davenport', 'FLAE'):
+        return {'magnetic_dip': float(dip_deg)}
+    return {}
+
+
+def _observe(cls, arch, frame, ps, gyr, acc, mag, ref=None, dip_deg=0.0):
     """build the filter through its public constructor; return [(attribute, kind, value)]"""
     import ahrs.filters as F
     kw = {}
     for k, v in PSETS[cls][ps].items():
         kw[k] = np.array(v, dtype=float) if k in _ARRAY_KW else v
+    for k, v in _ref_kw(cls, ref, dip_deg).items():
+        kw.pop('magnetic_dip', None); kw.pop('magnetic_ref', None); kw.pop('mag_ref', None); kw.pop('v2', None)
+        kw[k] = v
     if frame is not None:
         kw['frame'] = frame
     base, _, rep = arch.partition('-')
@@ -403,7 +516,7 @@ def o_attitudes(inp):
         suffix += '+int'
     else:
         args = (gyr.copy(), acc.copy(), mag.copy())
-    r = call_outcome(_observe, cls, arch, frame, ps, *args)
+    r = call_outcome(_observe, cls, arch, frame, ps, *args, inp.get('ref'), inp.get('dip_deg', 0.0))
     if _nan_rejected(r):
         return {'tag': f"{where}/{NANFAM}{suffix}", 'observed': list(r[1:]), 'expected': f'{N} valid attitudes'}
     if r[0] == 'raise':
@@ -674,6 +787,56 @@ def tilt_hist(rng, kind, N):
     return gyr, acc * sa, mag * sm
 
 
+def spin_hist(rng, N=25):
+    """thin region: a fast SUSTAINED rotation (60 rad/s about a fixed random axis) so that integrated angles leave [-2pi, 2pi]
+    within the record (angle-accumulating filters: Complementary, AngularRate 'integration')"""
+    g, a, m = rand_hist(rng, N)
+    axis = cm.unit(rng.standard_normal(3))
+    return np.tile(axis * 60.0, (N, 1)), a, m
+
+
+def aligned_hists(rng):
+    """structured noise-free histories: heading exactly aligned / anti-aligned / at +-90 deg with the magnetic reference's heading
+    (yaw = 0, 90, 180, 270 deg; images with exact zeros kept), several tilts and dips, both gravity conventions; the reference is handed
+    to the estimators that take one.  Quotients such as the azimuth cosine are +-1 (or 0) up to rounding there."""
+    out = []
+    for gsign in (1.0, -1.0):
+        for dip_deg in (64.0, -30.0, 0.0):
+            dec = float(rng.choice([0.0, rng.uniform(-math.pi, math.pi)]))
+            dip = math.radians(dip_deg)
+            ref = _snap([math.cos(dip) * math.cos(dec), math.cos(dip) * math.sin(dec), math.sin(dip)])
+            def hist(rows):
+                N = len(rows)
+                sa, sm = 10.0 ** rng.uniform(-2, 2, (N, 1)), 10.0 ** rng.uniform(-2, 2, (N, 1))
+                return (rng.standard_normal((N, 3)) * 0.1, np.array([r[0] for r in rows]) * sa, np.array([r[1] for r in rows]) * sm)
+
+            def image(R):
+                return _snap(R.T @ np.array([0.0, 0.0, gsign])), _snap(R.T @ ref)
+            for yaw, ntilt in ((0.0, 6), (180.0, 4), (90.0, 2), (270.0, 2)):
+                Rz = np.round(_Rz(math.radians(yaw)))                                   # exact quarter turns about z
+                out.append((ref, dip_deg, yaw == 0.0 and 'must' or 'exact', hist([image(Rz)] * 2)))
+                rows = [image(Rz @ _Ry(rng.uniform(-1.4, 1.4)) @ _Rx(rng.uniform(-3.0, 3.0))) for _ in range(ntilt)]
+                out.append((ref, dip_deg, yaw == 0.0 and 'must' or 'tilted', hist(rows)))
+    return out
+
+
+SCALES = (-12, -9, -6, -3, 0, 3, 6, 9, 12)
+
+
+def scale_region(ea, em):
+    f = lambda e: '-' if e <= -6 else '+' if e >= 6 else '0'
+    return f"scale-a{f(ea)}m{f(em)}"
+
+
+def scale_hist(rng, ea, em, N=3):
+    """magnitude sweep: generic directions, acc scaled by 10^ea and mag by 10^em independently (tesla / gauss / nT, g / m s^-2 / mg):
+    tiny NON-ZERO magnitudes are inside the property's domain"""
+    g, a, m = rand_hist(rng, N)
+    a = a / np.linalg.norm(a, axis=1)[:, None] * 10.0 ** ea * rng.uniform(1, 9)
+    m = m / np.linalg.norm(m, axis=1)[:, None] * 10.0 ** em * rng.uniform(1, 9)
+    return rng.standard_normal((N, 3)) * 0.1, a, m
+
+
 def _inp(cfg, region, H):
     cls, arch, fr, ps = cfg
     g, a, m = H
@@ -706,6 +869,22 @@ def search(ctx, scale):
             kind = ('pitch-only', 'roll-only')[(ci + j) % 2]
             inp = _inp(cfg, kind, tilt_hist(ctx.rng, kind, 7))
             ctx.check('attitudes', inp, _call(inp), nontrivial_key=(cfg, kind, j))
+        for j in range(scale):
+            inp = _inp(cfg, 'spin', spin_hist(ctx.rng))
+            ctx.check('attitudes', inp, _call(inp), nontrivial_key=(cfg, 'spin', j))
+    AH = aligned_hists(ctx.rng)
+    for ci, cfg in enumerate(cfgs):
+        for k, (ref, dip_deg, kind, H) in enumerate(AH):
+            if scale == 1 and kind != 'must' and (k + ci) % 3:
+                continue
+            inp = _inp(cfg, 'aligned', H)
+            inp['ref'], inp['dip_deg'] = ref.tolist(), dip_deg
+            ctx.check('attitudes', inp, _call(inp), nontrivial_key=(cfg, 'aligned', k))
+        for j in range(len(SCALES) * (1 if scale == 1 else 3)):
+            ea = SCALES[(ci + j) % len(SCALES)]
+            em = SCALES[(2 * ci + 5 * j + j // len(SCALES)) % len(SCALES)]
+            inp = _inp(cfg, scale_region(ea, em), scale_hist(ctx.rng, ea, em))
+            ctx.check('attitudes', inp, _call(inp), nontrivial_key=(cfg, 'scale', ea, em))
     for inp in stream_cases(ctx.rng, 3 * scale):
         ctx.check('stream', inp, _call_stream(inp), nontrivial_key=(inp['key'], inp['frame'], inp['ctor'], tuple(np.round(inp['q'], 6))))
     for inp in step_cases(ctx.rng, 6 * scale):
